@@ -272,3 +272,104 @@ def model_check(workdir: str, ops: List[Rec], depth: int, maxactors: int, worker
             if line.startswith("Error:"):
                 errs.append(line.strip())
     return edges, stats, errs, p.returncode, time.time() - t0
+
+
+def snapshot_leg(steps: List[dict], conts: List[str]) -> List[dict]:
+    """C12 with live child actors: run `steps` on a fresh root, snapshot it, restore a second root from the
+    snapshot, and compare - the actor tree right after the restore, the re-snapshot, and for every continuation op
+    (run on the original and on the restored root) the resulting actor tree and what was newly received."""
+    import json as _json
+    loop = VLoop()
+    asyncio.set_event_loop(loop)
+    bad: List[dict] = []
+    import xstate_statemachine.interpreter as _im
+    orig_cls = _im.Interpreter
+    STRUCT = ("alive", "fin", "kids", "sys")
+    try:
+        world = World()
+        canon = Canon()
+
+        class Child(orig_cls):
+            def __init__(self, machine, *a, **k):
+                super().__init__(machine, *a, **k)
+                world.instances.append(self)
+
+        _im.Interpreter = Child
+
+        def fresh_pair():
+            world.rec.clear()
+            world.instances.clear()
+            root = TracedRoot(world.root_machine)
+            root._pending = []
+            loop.run_coro(root.start())
+            for st in steps:
+                if st["op"] == "advance":
+                    nd = loop.next_deadline()
+                    if nd is not None:
+                        loop.advance_to(nd)
+                elif st["op"] == "stop":
+                    loop.run_coro(root.stop())
+                else:
+                    loop.run_coro(root.send(st["op"]))
+            snap = root.get_snapshot()
+            root2 = TracedRoot.from_snapshot(snap, world.root_machine)
+            root2._pending = []
+            if root2.status == "running":
+                loop.run_coro(root2.start())
+            return root, root2, snap
+
+        def struct(r):
+            o = observe(r, world, canon, loop, r._pending)
+            return {k: o[k] for k in STRUCT}
+
+        root, root2, snap = fresh_pair()
+        s1, s2 = struct(root), struct(root2)
+        if s1 != s2:
+            bad.append({"clause": "restored_actor_tree_differs", "cont": None, "original": s1, "restored": s2})
+        try:
+            a, b = _json.loads(snap), _json.loads(root2.get_snapshot())
+            if a != b:
+                diff = [k for k in sorted(set(a) | set(b)) if a.get(k) != b.get(k)]
+                bad.append({"clause": "resnapshot_differs:" + ",".join(diff), "cont": None, "original": {k: a.get(k) for k in diff},
+                            "restored": {k: b.get(k) for k in diff}})
+        except Exception as ex:  # noqa: BLE001
+            bad.append({"clause": "resnapshot_failed:" + type(ex).__name__, "cont": None, "original": None, "restored": None})
+        for r in (root, root2):
+            try:
+                loop.run_coro(r.stop())
+            except Exception:  # noqa: BLE001
+                pass
+        if not bad:
+            for c in conts:
+                root, root2, _snap = fresh_pair()
+                outs = []
+                for r in (root, root2):
+                    before = {k: len(v) for k, v in world.rec.items()}
+                    try:
+                        if c == "stop":
+                            loop.run_coro(r.stop())
+                        else:
+                            loop.run_coro(r.send(c))
+                    except Exception as ex:  # noqa: BLE001
+                        outs.append(("EXC", type(ex).__name__))
+                        continue
+                    delta = {canon(k): v[before.get(k, 0):] for k, v in world.rec.items() if len(v) > before.get(k, 0)}
+                    outs.append((struct(r), delta))
+                if outs[0] != outs[1]:
+                    bad.append({"clause": "continuation_differs", "cont": c, "original": outs[0], "restored": outs[1]})
+                for r in (root, root2):
+                    try:
+                        loop.run_coro(r.stop())
+                    except Exception:  # noqa: BLE001
+                        pass
+    finally:
+        try:
+            for t in asyncio.all_tasks(loop):
+                t.cancel()
+            loop.run_idle()
+        except Exception:  # noqa: BLE001
+            pass
+        _im.Interpreter = orig_cls
+        asyncio.set_event_loop(None)
+        loop.close()
+    return bad
